@@ -670,6 +670,10 @@ func c02Case(w *core.Worker, i int) {
 			// the same layouts with the line breaks the session does not use (the file's own line break is kept)
 			{"fxhc.txt", "id c1  \r\n1  abcd\r\n2  wxyz\r\n3  ijkl\r\n", "[3,7]", false, [][]string{{"1", "abcd"}, {"2", "UPD"}, {"3", "ijkl"}}},
 			{"fxnc.txt", "1  abcd\r\n2  wxyz\r\n3  ijkl\r\n", "[3,7]", true, [][]string{{"1", "abcd"}, {"2", "UPD"}, {"3", "ijkl"}}},
+			// positions found automatically: the layout the file is rewritten in is csvq's choice, the cells are not
+			{"fxa.txt", "id c1\n1  abcd\n2  wxyz\n3  ijkl\n", "SPACES", false, [][]string{{"1", "abcd"}, {"2", "UPD"}, {"3", "ijkl"}}},
+			{"fxan.txt", "1  abcd\n2  wxyz\n3  ijkl\n", "SPACES", true, [][]string{{"1", "abcd"}, {"2", "UPD"}, {"3", "ijkl"}}},
+			{"fxac.txt", "id   c1  \r\n1    abcd\r\n2    wxyz\r\n3    ijkl\r\n", "SPACES", false, [][]string{{"1", "abcd"}, {"2", "UPD"}, {"3", "ijkl"}}},
 		} {
 			fd := core.FreshDir(w.Work, "fixed")
 			core.WriteFiles(fd, map[string]string{f.name: f.body})
@@ -690,7 +694,7 @@ func c02Case(w *core.Worker, i int) {
 				fviol("statement-error", "an UPDATE that changes nothing failed: "+truncateStr(r0.Stderr, 150))
 				continue
 			}
-			if b, _ := os.ReadFile(filepath.Join(fd, f.name)); string(b) != f.body {
+			if b, _ := os.ReadFile(filepath.Join(fd, f.name)); string(b) != f.body && f.pos != "SPACES" {
 				fviol("dialect-changed", "an UPDATE that assigns every cell its own value rewrote the file differently")
 			}
 			if r1 := run(fmt.Sprintf("UPDATE `%s` SET %s = 'UPD' WHERE %s = 2", f.name, c2, c1)); r1.Code != 0 {
@@ -713,6 +717,48 @@ func c02Case(w *core.Worker, i int) {
 				fviol("cell-differs", fmt.Sprintf("after UPDATE of one cell the file reads back as %v (exit %d), expected %v", got, r2.Code, want))
 			}
 			w.Count("fixed_length_files_updated", 1)
+		}
+	}
+	// … and their columns are added, dropped and renamed: what COMMIT writes must read back (positions found automatically,
+	// as they were for the original) as the table the altering process itself saw after the statement; a refusal leaves the bytes
+	if i%10 == 5 {
+		body := "id c1   c2\n1  abcd p\n2  wxyz q\n3  ijkl r\n"
+		if (i/10)%2 == 1 {
+			body = strings.ReplaceAll(body, "\n", "\r\n")
+		}
+		for ai, alter := range []string{
+			"ALTER TABLE `fa.txt` ADD extra DEFAULT 'new'", "ALTER TABLE `fa.txt` ADD extra DEFAULT 'new' FIRST", "ALTER TABLE `fa.txt` ADD (x1 DEFAULT id * 2, x2 DEFAULT 'yy') AFTER c1",
+			"ALTER TABLE `fa.txt` DROP c1", "ALTER TABLE `fa.txt` DROP (id, c2)", "ALTER TABLE `fa.txt` RENAME c1 TO a_much_longer_name", "ALTER TABLE `fa.txt` ADD wide DEFAULT 'a-text-wider-than-any-column'",
+			"ALTER TABLE `fa.txt` ADD extra DEFAULT 'new'; ALTER TABLE `fa.txt` DROP extra",
+		} {
+			for _, pos := range []string{"SPACES", "[3,8,10]"} {
+				fd := core.FreshDir(w.Work, "fixed")
+				core.WriteFiles(fd, map[string]string{"fa.txt": body})
+				fa := append(csvqArgs("-q", "-f", "JSONL"), "--import-format", "FIXED", "--delimiter-positions")
+				r1 := core.RunProc(core.ProcOpts{Dir: fd, Args: append(append([]string{}, fa...), pos, alter+"; SELECT * FROM `fa.txt`"), Timeout: 60 * time.Second})
+				b, _ := os.ReadFile(filepath.Join(fd, "fa.txt"))
+				fviol := func(sig, what string) {
+					w.Violation(sig+":FIXED", fmt.Sprintf("fixed-length file %q (positions %s), %s: %s; file now %q", body, pos, alter, what, truncateStr(string(b), 200)), c02Replay{Bytes: body, Dialect: c02Dialect{Format: "FIXED", Positions: pos}, Path: "ALTER", Detail: what})
+				}
+				if r1.Code != 0 {
+					if string(b) != body {
+						fviol("refused-but-written", fmt.Sprintf("exit %d (%s) but the file changed", r1.Code, truncateStr(r1.Stderr, 120)))
+					}
+					w.Count("fixed_length_alterations_refused", 1)
+					continue
+				}
+				r2 := core.RunProc(core.ProcOpts{Dir: fd, Args: append(append([]string{}, fa...), "SPACES", "SELECT * FROM `fa.txt`"), Timeout: 60 * time.Second})
+				// numbers that went through the file come back as the texts the file spells: compare the spellings
+				norm := func(x string) string { return strings.ReplaceAll(strings.TrimSpace(x), "\"", "") }
+				if r2.Code != 0 || norm(r2.Stdout) != norm(r1.Stdout) {
+					fviol("unreadable-after-write", fmt.Sprintf("the altering process saw %q, the committed file reads back as %q (exit %d %s)", truncateStr(r1.Stdout, 300), truncateStr(r2.Stdout, 300), r2.Code, truncateStr(r2.Stderr, 100)))
+				}
+				if bytes.Contains([]byte(body), []byte("\r\n")) != bytes.Contains(b, []byte("\r\n")) {
+					fviol("dialect-changed", "the file's line break changed")
+				}
+				w.Count("fixed_length_files_altered", 1)
+				_ = ai
+			}
 		}
 	}
 	if i < 30 {
